@@ -25,8 +25,8 @@ PROPS = {
 INVS = ["TypeOK", "FlagsSound", "KUniqueInc"]
 
 
-def consts(pids, objs, maxinc, maxup, sigs=(9,), setters=("nice",), fixes=None):
-    return {"Pids": set(pids), "Objs": set(objs), "MaxInc": maxinc, "MaxUp": maxup,
+def consts(pids, objs, maxinc, maxup, sigs=(9,), setters=("nice",), fixes=None, kinds=("proc",)):
+    return {"Pids": set(pids), "Objs": set(objs), "MaxInc": maxinc, "MaxUp": maxup, "Kinds": set(kinds),
             "Boots": {10, 20}, "CLK": 2, "Sigs": set(sigs), "Setters": set(setters),
             "Fixes": set(FIXES if fixes is None else fixes)}
 
@@ -101,7 +101,11 @@ class Adapter:
             w.btime = e["btime"]
             return None
         if op == "new":
-            res, v = self.outcome(lambda: ps.Process(e["pid"]))
+            if e.get("kind") == "popen":
+                w.popen_pid = e["pid"]
+                res, v = self.outcome(lambda: ps.Popen(["child"]))
+            else:
+                res, v = self.outcome(lambda: ps.Process(e["pid"]))
             if res == "ok":
                 self.objs[e["o"]] = v
                 if v.pid != e["pid"]:
@@ -168,17 +172,7 @@ class Adapter:
         return None
 
 
-_T = {}
-
-
-def template():
-    """Import psutil once (under the shim) in this process."""
-    if "ps" not in _T:
-        w = World()
-        w.ncpus = 2
-        ps = import_psutil(w)
-        _T["w"], _T["ps"] = w, ps
-    return _T["w"], _T["ps"]
+from harness.tmpl import template  # noqa: E402
 
 
 def run_events(job):
@@ -364,10 +358,10 @@ def check(ctx):
     # (1) exhaustive check
     allsetters = ("nice", "ionice", "rlimit", "affinity")
     if thorough:
-        c = consts({1, 2}, {1, 2, 3}, 4, 3, sigs=(9, 15), setters=allsetters)
+        c = consts({1, 2}, {1, 2, 3}, 4, 3, sigs=(9, 15), setters=allsetters, kinds=("proc", "popen"))
         r = tlc_check(ctx, "exhaustive-2pid-3obj", c, props, timeout=1500)
     else:
-        c = consts({1, 2}, {1, 2}, 3, 2, sigs=(9,), setters=("nice",))
+        c = consts({1, 2}, {1, 2}, 3, 2, sigs=(9,), setters=("nice",), kinds=("proc", "popen"))
         r = tlc_check(ctx, "exhaustive-2pid-2obj", c, props)
     if r.violated:
         model_violation(ctx, r, "exhaustive")
@@ -395,14 +389,21 @@ def check(ctx):
     if need - allops:
         raise core.Machinery("vacuity: result classes never exercised: %s" % sorted(need - allops))
     # (3) deep random behaviours of a larger configuration
-    cs = consts({1, 2, 3}, {1, 2, 3}, 6, 4, sigs=(9, 15, 19, 18, 1), setters=allsetters)
+    cs = consts({1, 2, 3}, {1, 2, 3}, 6, 4, sigs=(9, 15, 19, 18, 1), setters=allsetters,
+                kinds=("proc", "popen"))
     replay_sim(ctx, "simulate-3pid-3obj", cs, 4000 if thorough else 600, 40)
+    if prop == "C02":
+        # is_running() / object identity under process_iter() traffic: the
+        # ProcIter model (C04) predicts every is_running() answer on yielded objects
+        from harness.props import c04
+        c04.replay_all(ctx, thorough)
 
 
 DUMPS = [
     ("dump-1pid-2obj", lambda: consts({1}, {1, 2}, 2, 1, sigs=(9,), setters=("nice",))),
     ("dump-2pid-1obj", lambda: consts({1, 2}, {1}, 2, 1, sigs=(15,), setters=("rlimit",))),
     ("dump-pid0", lambda: consts({0, 1}, {1}, 2, 1, sigs=(9, 15, 19, 18, 10), setters=())),
+    ("dump-popen", lambda: consts({1}, {1, 2}, 2, 1, sigs=(9,), setters=("affinity",), kinds=("popen",))),
 ]
 
 
